@@ -282,6 +282,25 @@ func init() {
 			}
 			e.addAll(q, specs)
 		}
+		if r.Intn(2) == 0 {
+			// Pause / Resume while the queue is being worked off: a job the dispatcher has in its hands
+			// when the Pause lands keeps its place
+			var jn joiner
+			jn.goClient("toggler", func() {
+				for k := 1 + r.Intn(3); k > 0; k-- {
+					for y := r.Intn(6); y > 0; y-- {
+						vt.Yield()
+					}
+					e.lifecycle("Pause", 0)
+					for y := r.Intn(4); y > 0; y-- {
+						vt.Yield()
+					}
+					e.lifecycle("Resume", 0)
+				}
+			})
+			e.ensureRunning()
+			jn.wait()
+		}
 		e.drain()
 	})
 
